@@ -153,6 +153,9 @@ def build():
         for k_ in 0..outs_.len() { match outs_[k_] { Some(e_) => { coeffs.push(e_); } None => { return Err(CircuitBuilderError::missing_output()); } } }''', min_count=1, flags_dotall=True)
     de.rewrite_re('R11', r'self\.recompose_base_coeffs_to_ext_with_coeff_lookups::<BF>\(&coeffs\)', 'self.recompose_base_coeffs_to_ext_impl::<BF>(coeffs.as_slice(), RecomposeMode::NpoWithCoeffLookups)', min_count=1)
     de.rewrite_re('R11', r'self\.recompose_base_coeffs_to_ext::<BF>\(&coeffs\)', 'self.recompose_base_coeffs_to_ext_impl::<BF>(coeffs.as_slice(), RecomposeMode::Npo)', min_count=1)
+    # R11: `matches!(self.expr_builder.graph().get_expr(x), crate::expr::Expr::PrivateInput(_))` -> opaque query of the expression kind
+    de.rewrite_re('R11', r'matches!\(\s*self\.expr_builder\.graph\(\)\.get_expr\((\w+)\),\s*(?:crate::expr::)?Expr::(\w+)\(_\)\s*,?\s*\)', r'expr_kind_is(self, \1, ExprKind::\2)', min_count=0)
+    de.rewrite_re('R11', r'self\.recompose_base_coeffs_to_ext_via_alu::<BF>\(&coeffs\)', 'self.recompose_base_coeffs_to_ext_impl::<BF>(coeffs.as_slice(), RecomposeMode::ForceAlu)', min_count=0)
     de.requires('allocated', 'old(self).has(x)')
     de.ensures('frame', 'final(self).extends(old(self)) && (ret matches Ok(c) ==> c@.len() == sp_dimension::<F>() && final(self).has_all(c@))')
     de.ensures('in_every_accepted_proof_the_coefficients_recompose_to_x_and_are_base_field_elements',
@@ -175,6 +178,13 @@ def build():
         ('hint_outputs', 'self.extends_pure(old(self)) && outs_@.len() == sp_dimension::<F>() && coeffs@.len() == k_ && self.has_all(coeffs@) && (forall|k: int| 0 <= k < outs_@.len() ==> ((#[trigger] outs_@[k]) matches Some(e) && self.has(e)))'),
     ])
 
+    u.text('''verus! {
+/// the kind of an expression node (only asked about, never computed here)
+pub enum ExprKind { Const, Public, PrivateInput, Other }
+pub uninterp spec fn sp_expr_kind_is<F: Field>(cb: &CircuitBuilder<F>, x: ExprId, k: ExprKind) -> bool;
+#[verifier::external_body]
+pub fn expr_kind_is<F: Field>(cb: &CircuitBuilder<F>, x: ExprId, k: ExprKind) -> (r: bool) ensures r == sp_expr_kind_is(cb, x, k) { unimplemented!() }
+}''')
     u.text('verus! {\nimpl<F: ExtX> CircuitBuilder<F> {')
     u.emit(rv, vis='pub')
     u.emit(ri, vis='pub')
